@@ -75,7 +75,7 @@ type Config struct {
 	StallTask  int32 // -1 none: task excluded from choices for StallFor decisions after its first pre-emption
 	StallFor   int
 	StallSet   []int32 // further tasks treated like StallTask (several callers frozen at their first pre-emption)
-	LowPrio    int32 // -1 none: task only chosen when nothing else is runnable
+	LowPrio    int32   // -1 none: task only chosen when nothing else is runnable
 	Faults     []Fault
 	SiteFlags  []uint8
 	NumSites   int
